@@ -19,7 +19,7 @@ const STUB: [&str; 4] = [
 ];
 
 pub fn all() -> Vec<Property> {
-    vec![c01(), c02(), c06(), c07(), c08(), c09(), c10(), c11(), c12(), c13(), c14(), c17()]
+    vec![c01(), c02(), c06(), c07(), c08(), c09(), c10(), c11(), c12(), c13(), c14(), c16(), c17()]
 }
 
 fn c06() -> Property {
@@ -132,6 +132,56 @@ fn c14() -> Property {
         real_components: REAL.to_vec(),
         stub_components: STUB.to_vec(),
         expected_probes: vec!["late-attach-error-names-the-stop", "late-operation-failed", "peer-error-carried-by-link-error", "re-attach-after-suspension", "cut-beyond-conversation"],
+    }
+}
+
+fn c16() -> Property {
+    Property {
+        id: "C16",
+        level: "fault_enumeration",
+        variants: vec![
+            Variant {
+                name: "recv-dropped-after-k-polls",
+                weight: 1,
+                make: || Box::pin(scen::c16::run_recv_enumerated()),
+                max_steps: 3_000_000,
+                cases_per_seed: scen::c16::CASES,
+                note: "real client receiver <- real listener sender; recv j is polled k times and dropped (at once / at the next wake-up), for every j and k",
+            },
+            Variant {
+                name: "send-dropped-after-k-polls",
+                weight: 1,
+                make: || Box::pin(scen::c16::run_send_enumerated()),
+                max_steps: 3_000_000,
+                cases_per_seed: scen::c16::CASES,
+                note: "real client sender -> real listener receiver; send j is polled k times and dropped, for every j and k",
+            },
+            Variant {
+                name: "recv-select-loop",
+                weight: 1,
+                make: || Box::pin(scen::c16::run_recv_seeded()),
+                max_steps: 3_000_000,
+                cases_per_seed: 1,
+                note: "every recv goes through a seeded cancel-and-retry loop",
+            },
+            Variant {
+                name: "send-select-loop",
+                weight: 1,
+                make: || Box::pin(scen::c16::run_send_seeded()),
+                max_steps: 3_000_000,
+                cases_per_seed: 1,
+                note: "two sends out of three are dropped after a seeded number of polls",
+            },
+        ],
+        quick_runs: 4 * scen::c16::CASES * 8,
+        thorough_runs: 4 * scen::c16::CASES * 600,
+        rule: "enumerated variants: per seed (= configuration incl. link->session channel capacity 1/2/3/8/2048, credit policy, auto-accept, message sizes of 1-4 frames, network behaviour, schedule) one run per (target operation j in 0..6, k in 1..=12, drop at once / at the next wake-up); k beyond the polls the operation needs counts as trivial; select-loop variants: one run per seed; distinct = distinct event-log hash",
+        assumptions: vec![
+            "a cancelled message is not sent again by the workload, so that 'at most once' is decidable; the last message is never cancelled (it tells the receiving peer when to stop)",
+        ],
+        real_components: REAL.to_vec(),
+        stub_components: STUB.to_vec(),
+        expected_probes: vec!["delivery-checked", "arrivals-checked", "recv-completed-before-k-polls", "send-completed-before-k-polls"],
     }
 }
 
